@@ -85,7 +85,7 @@ func (o c18Op) String() string {
 	case "Add", "Remove":
 		return fmt.Sprintf("%s%v", o.kind, o.ids)
 	case "SetClient":
-		return "SetHTTPClient(" + [...]string{"same", "fresh-nil-transport", "fresh-custom-transport", "first-client-again", "client-whose-transport-is-this-SimpleHTTP"}[o.arg] + ")"
+		return "SetHTTPClient(" + [...]string{"same", "fresh-nil-transport", "fresh-custom-transport", "first-client-again", "client-whose-transport-is-this-SimpleHTTP", "the client it already holds, after the caller replaced its Transport", "the client it already holds, after the caller set its Transport to nil"}[o.arg] + ")"
 	case "Req":
 		if o.inst == 1 {
 			return "Request(" + c18Verbs[o.arg] + " through the second SimpleHTTP)"
@@ -189,6 +189,20 @@ func c18Run(c *core.Ctx, hist []c18Op, failPlan map[int]int) {
 					sh.SetHTTPClient(&http.Client{Transport: tB})
 				case 3:
 					sh.SetHTTPClient(c1)
+				case 5, 6:
+					// (skipped while the other instance lives on the same http.Client: overwriting the Transport of a shared
+					// client evicts that instance by the caller's own hand, its requests are then outside the statement)
+					if shs[1] != nil && shs[1-cur].GetHTTPClient() == sh.GetHTTPClient() {
+						return
+					}
+					cl := sh.GetHTTPClient()
+					if op.arg == 6 {
+						cl.Transport = nil
+						sh.SetHTTPClient(cl)
+						return
+					}
+					cl.Transport = tB
+					sh.SetHTTPClient(cl)
 				default:
 					sh.SetHTTPClient(&http.Client{Transport: sh})
 				}
@@ -342,7 +356,7 @@ func c18Alphabet() []c18Op {
 	return []c18Op{
 		{kind: "Add", ids: []int{1}}, {kind: "Add", ids: []int{2}}, {kind: "Add", ids: []int{1, 2, 1}}, {kind: "Add", ids: []int{3}},
 		{kind: "Remove", ids: []int{1}}, {kind: "Remove", ids: []int{2}}, {kind: "Clear"},
-		{kind: "SetClient", arg: 0}, {kind: "SetClient", arg: 1}, {kind: "SetClient", arg: 2}, {kind: "SetClient", arg: 3}, {kind: "SetClient", arg: 4},
+		{kind: "SetClient", arg: 0}, {kind: "SetClient", arg: 1}, {kind: "SetClient", arg: 2}, {kind: "SetClient", arg: 3}, {kind: "SetClient", arg: 4}, {kind: "SetClient", arg: 5}, {kind: "SetClient", arg: 6},
 		{kind: "Req", arg: 0}, {kind: "Req", arg: 4}, {kind: "Req", arg: 7},
 		{kind: "Second", arg: 0}, {kind: "Second", arg: 1}, {kind: "Add", ids: []int{4}, inst: 1}, {kind: "Add", ids: []int{5, 4}, inst: 1},
 		{kind: "Remove", ids: []int{4}, inst: 1}, {kind: "Req", arg: 0, inst: 1}, {kind: "Req", arg: 8, inst: 1},
@@ -455,7 +469,7 @@ func init() {
 		Meta: func(c *core.Ctx) core.Meta {
 			return core.Meta{
 				Level: "fault_enumeration",
-				Rule: "histories over {AddInterceptor (single, duplicates), RemoveInterceptor, ClearInterceptor, SetHTTPClient (same client, fresh client with nil transport, fresh client with custom transport, first client again, client whose transport is this SimpleHTTP), request (7 direct verbs + SimpleAPI GET/POST)}: every history of length <= D over a 22-letter alphabet (D=4 quick, 5 thorough; the alphabet includes a second SimpleHTTP instance on the same or its own http.Client, built from the same spare-capacity interceptor slice, with its own Add/Remove/requests) each followed by three probe requests one of which has a failing interceptor, plus PRNG histories of length 12 with 0..6 interceptors and a failing interceptor at every position. " +
+				Rule: "histories over {AddInterceptor (single, duplicates), RemoveInterceptor, ClearInterceptor, SetHTTPClient (same client, fresh client with nil transport, fresh client with custom transport, first client again, client whose transport is this SimpleHTTP, the client it already holds after the caller replaced its Transport by another one or by nil), request (7 direct verbs + SimpleAPI GET/POST)}: every history of length <= D over a 24-letter alphabet (D=4 quick, 5 thorough; the alphabet includes a second SimpleHTTP instance on the same or its own http.Client, built from the same spare-capacity interceptor slice, with its own Add/Remove/requests) each followed by three probe requests one of which has a failing interceptor, plus PRNG histories of length 12 with 0..6 interceptors and a failing interceptor at every position. " +
 					"One shared call log written by stub interceptors and stub transports is compared per request with the model registration list: each interceptor once, in order, then exactly one transport call; after a failing interceptor nothing else runs and the error is surfaced; interceptors' header changes reach the transport. Runs in child processes (a recursing chain is a fatal stack overflow). distinct_nontrivial = distinct histories",
 				Assumptions: []string{"RemoveInterceptor removes every occurrence of the named pointer", "which underlying transport a re-set client ends up with is not part of the property; exactly one transport call is",
 					"http.DefaultTransport is replaced by a stub for the run (a client with a nil transport must not reach the network)"},
